@@ -59,14 +59,23 @@ SHARED_VARS = {"ref": "ForwardRef", "annotation": "ForwardRef", "field": "Parser
 PER_CALL_VARS = {"context", "new_context", "arg_context", "transformer", "instance", "_obj_self", "obj", "self_obj",
                  "values", "result", "data", "kwargs", "e", "error", "exc", "err"}
 
-# allow-list: (function ref, attribute) -> reason.  One line each, one symbol each.
-ALLOWED = {
-    ("utype.parser.base:BaseParser.apply_for", "__parsers__"):
+# allow-list of atomic publishes, keyed by the *state* written (owner class family or module, attribute): reason
+ALLOWED_STATE = {
+    ("utype.parser.base", "__parsers__"):
         "atomic publish of a completely constructed parser under its class key; two racing first uses build two equal "
         "parsers and the last store wins (checked by R20d)",
-    ("utype.utils.datastructures:cached_property.__get__", "__dict__"):
+    ("cached_property", "__dict__"):
         "idempotent memo of a pure property on the instance (compat shim of functools.cached_property)",
 }
+
+
+def allowed_publish(w) -> str:
+    c = class_of(w.f)
+    if w.target == "<module>":
+        return ALLOWED_STATE.get((w.f.module.name, w.attr), "")
+    if c is not None:
+        return ALLOWED_STATE.get((c.name, w.attr), "")
+    return ""
 
 
 def _is_fresh(fa, n, name: str) -> bool:
@@ -209,7 +218,7 @@ def r20a(run, cg):
             run.ob("R20a", w.f, f"`{w.text[:60]}`: at run time the function is only reached through a lock region", True,
                    detail=" -> ".join(reach_all[w.f.ref][-5:]))
             continue
-        allowed = ALLOWED.get((w.f.ref, w.attr))
+        allowed = allowed_publish(w)
         if allowed:
             run.ob("R20a", w.f, f"`{w.text[:60]}` is an allow-listed atomic publish", True, detail=allowed)
             continue
@@ -345,7 +354,14 @@ def r20c(run, cg):
                   necessity="a lookup between the two steps refills the memo from the new list / old list inconsistently")
     # resolve: the scan and the fill are in one region; the lock-free read is a single call
     fa = analysis(res)
-    scan = [n for n in fa.cfg.nodes if n.kind == "iter" and unparse(n.ast) == "self._registry"]
+    def _is_registry(n):
+        if unparse(n.ast) == "self._registry":
+            return True
+        if isinstance(n.ast, ast.Name) and n.ast.id in fa.rd.locals:
+            os_ = prov(fa).of_name(n, n.ast.id)
+            return bool(os_) and all(o.kind == "attr" and o.text == "self._registry" for o in os_)
+        return False
+    scan = [n for n in fa.cfg.nodes if n.kind == "iter" and _is_registry(n)]
     if scan:
         lk = lexically_locked(res, scan[0].stmt, cg.locks)
         run.check("R20c", res, "the registry scan that feeds the memo runs under the lock", bool(lk),
